@@ -663,18 +663,18 @@ class Folder:
                 return _bl(r_)
             return r_
         if isinstance(node, ast.BoolOp):
-            vals = [self.fold(v) for v in node.values]
-            if any(isinstance(v, list) for v in vals):
-                raise Unfoldable("boolean operator on a list")
-            if isinstance(node.op, ast.And):
-                for v in vals:
-                    if not v:
-                        return v
-                return vals[-1]
-            for v in vals:
-                if v:
-                    return v
-            return vals[-1]
+            # short-circuit evaluation, as python does it: later operands are not evaluated once the result is known
+            last_ = None
+            for vn_ in node.values:
+                last_ = self.fold(vn_)
+                if isinstance(last_, list) and not isinstance(last_, PySeq):
+                    raise Unfoldable("boolean operator on a tensor")
+                t_ = truth(last_) if isinstance(last_, PySeq) else bool(last_)
+                if isinstance(node.op, ast.And) and not t_:
+                    return last_
+                if isinstance(node.op, ast.Or) and t_:
+                    return last_
+            return last_
         if isinstance(node, ast.IfExp):
             d = self.decide(node.test) if self.decide else None
             if d is None:
@@ -741,6 +741,14 @@ class Folder:
                 return base[i]
             if isinstance(base, list) and isinstance(i, BoolList) and len(i) == len(base) and not any(isinstance(t, list) for t in i):
                 return [b_ for b_, m_ in zip(base, i) if m_]
+            if isinstance(base, list) and not isinstance(base, PySeq) and isinstance(i, BoolList) and any(isinstance(t, list) for t in i):
+                # a mask over several leading axes: the selected entries in row-major order
+                ms_, bs_ = _regular(i), _regular(base)
+                if ms_ == bs_[: len(ms_)]:
+                    import itertools as _it
+
+                    return [_at(base, idx_) for idx_ in _it.product(*[range(n_) for n_ in ms_]) if _at(i, idx_)]
+                raise Unfoldable("mask shape does not match the leading axes")
             if isinstance(base, list) and isinstance(i, list) and not isinstance(i, BoolList) and all(isinstance(t, int) and not isinstance(t, bool) and -len(base) <= t < len(base) for t in i):
                 return [base[t] for t in i]
             if isinstance(base, list) and not isinstance(base, PySeq) and isinstance(i, list) and not isinstance(i, (BoolList, PySeq)) and i and all(isinstance(t, list) for t in i):
@@ -830,7 +838,7 @@ class Folder:
             from .frag import FragReturn, run_fragment
 
             try:
-                run_fragment(fd_.body, dict(self.names, **dict(zip(params_, argv))), self.attrs, funcs=self.funcs, materialise=self.materialise, ctors=self.ctors)
+                run_fragment(fd_.body, dict(self.names, **dict(zip(params_, argv))), self.attrs, funcs=self.funcs, materialise=self.materialise, ctors=self.ctors, attrs_live=True)
             except FragReturn as r_:
                 return r_.value
             raise Unfoldable("local function returns nothing")
@@ -1177,7 +1185,7 @@ class Folder:
             if any(p_ not in env for p_ in params):
                 raise Unfoldable(f"call {node.func.id}: missing argument")
             try:
-                run_fragment(fd.body, env, self.attrs, funcs={k: v for k, v in self.funcs.items() if k != node.func.id}, materialise=self.materialise, ctors=self.ctors)
+                run_fragment(fd.body, env, self.attrs, funcs={k: v for k, v in self.funcs.items() if k != node.func.id}, materialise=self.materialise, ctors=self.ctors, attrs_live=True)
             except FragReturn as r:
                 return r.value
             raise Unfoldable(f"call {node.func.id}: no return value")
@@ -1401,6 +1409,20 @@ class Folder:
                 if isinstance(v_, list) and not isinstance(v_, PySeq) and isinstance(d_, int) and not isinstance(d_, bool):
                     return _fibers(v_, d_, min if short == "amin" else max, kd_)
                 raise Unfoldable(f"{short} over an axis")
+            if short == "prod" and node.args and (len(node.args) == 2 or any(k.arg == "dim" for k in node.keywords)) and all(k.arg in ("dim", "keepdim") for k in node.keywords):
+                v_ = self.fold(node.args[0])
+                d_ = self.fold(node.args[1] if len(node.args) == 2 else next(k.value for k in node.keywords if k.arg == "dim"))
+                kd_ = bool(next((self.fold(k.value) for k in node.keywords if k.arg == "keepdim"), False))
+                if isinstance(v_, list) and not isinstance(v_, PySeq) and v_ and isinstance(d_, int) and not isinstance(d_, bool) and _regular(v_):
+
+                    def _prod(xs):
+                        out = 1
+                        for x in xs:
+                            out = out * x
+                        return out
+
+                    return _fibers(v_, d_, _prod, kd_)
+                raise Unfoldable("prod over an axis")
             if short in ("sum", "prod", "amin", "amax", "argmin", "argmax", "mean") and node.args:
                 v = self.fold(node.args[0])
                 if short in ("sum", "mean", "prod", "amin", "amax") and isinstance(v, list) and not isinstance(v, PySeq) and v and isinstance(v[0], list) and len(node.args) == 1 and not node.keywords:
